@@ -2,8 +2,8 @@
 # usage: confirm_seed.sh <id e.g. c13> <k> <PROPERTY e.g. C13>
 # Confirms a sub-agent's seeded change in ITS scratch worktree (/tmp/wt/<id>): demo fails with the patch, passes without,
 # a fixed set of the repository's unit tests passes with the patch; then stores it as /verif/seeded/<PROPERTY>-m<k>/.
-id=$1; k=$2; prop=$3
-D=/tmp/wt/${id}_out/m$k; WT=/tmp/wt/$id; S=/verif/seeded/$prop-m$k
+id=$1; k=$2; prop=$3; sk=${4:-$k}
+D=/tmp/wt/${id}_out/m$k; WT=/tmp/wt/$id; S=/verif/seeded/$prop-m$sk
 [ -f $D/patch.diff ] || { echo "no patch $D"; exit 2; }
 mkdir -p $S; cp $D/patch.diff $D/demo.cpp $D/build.sh $D/notes.txt $S/ 2>/dev/null
 cd $WT && git checkout -q -- . 
@@ -36,4 +36,4 @@ json.dump(dict(property="$prop", source="independent sub-agent in scratch worktr
   confirmed=(int("$rc_with" or 0)!=0 and int("$rc_without" or 1)==0 and "$tfail".strip()==""),
   needs=open("$D/notes.txt").read()[:1500]), open("$S/meta.json","w"), indent=1)
 P
-echo "CONFIRM $prop-m$k demo_with=$rc_with demo_without=$rc_without tests_failing='$tfail'"
+echo "CONFIRM $prop-m$sk demo_with=$rc_with demo_without=$rc_without tests_failing='$tfail'"
